@@ -318,6 +318,16 @@ def proof_obligations(run, pid, extra_obligations=0, extra_discharged=0, extra_n
     cov["checker_cmd"] = "cd coq && coq_makefile -f _CoqProject -o Makefile && make -j16  (then coqc theories/Props/%s.v; thorough tier adds coqchk -silent -o)" % pid
     cov["print_assumptions"] = {"theorems_closed_under_global_context": closed, "axioms": axioms}
     cov["obligation_names"] = ["theorems of Props/%s.v (%d)" % (pid, nthm)] + list(extra_names)
+    if run.tier == "thorough" and ok and pok and not os.environ.get("VERIF_NO_COQCHK"):
+        # independent re-check of the property module and everything it depends on, with the axiom listing
+        with _Lock("coqchk"):
+            rc, out2, err2 = sh("ulimit -s unlimited 2>/dev/null; exec timeout 5400 coqchk -silent -o -Q theories GV -Q gen GVgen GV.Props.%s" % pid, cwd=COQ, timeout=5500)
+        summary = (out2 + err2)[-1500:]
+        m = re.search(r"\* Axioms:(.*?)\* Constants/Inductives relying on type-in-type", summary, re.S)
+        cov["coqchk"] = {"exit": rc, "axioms": (m.group(1).strip() if m else "?"), "summary_tail": summary[-600:]}
+        if rc != 0:
+            ok = False
+            log = "coqchk failed: " + summary
     tb = list(TRUSTED_BASE_COMMON)
     if axioms:
         tb.append("standard-library axioms reported by Print Assumptions: " + ", ".join(axioms))
